@@ -227,7 +227,8 @@ class _D(Domain):
     loop_bound = 1
 
     def resolve_call(self, st, call, walker):
-        return None
+        # private helpers extracted from the analysed code are followed
+        return walker.resolve_helper(st, call)
 
     def resolve_setter(self, st, target, walker):
         return None
